@@ -6,7 +6,7 @@ from typing import Dict, List, Optional, Set, Tuple
 
 from .core import AnalysisError, Report
 from .emit import Folder, Slot, Tpl
-from .prog import (ClassInfo, Program, enclosing, func_params, guards_of, local_assignments, parent,
+from .prog import (ClassInfo, Program, enclosing, func_params, guards_of, inline_locals, local_assignments, parent,
                    stmt_of, unparse, walk_no_nested)
 
 MW = "gtwrap/matlab_wrapper/wrapper.py"
@@ -19,32 +19,68 @@ def mw(ctx) -> Tuple[ClassInfo, Program]:
 
 # ------------------------------------------------------------------------------------------
 def rule_single_writer(ctx, rep: Report, rid="I1"):
+    """The counter and the dispatch map are written by the allocator only; the one other thing that may happen to
+    them is a *joint* reset (counter := 0 and map := {} side by side, unconditionally) - in the constructor or in a
+    start-of-run method.  Resetting one without the other leaves map entries of an earlier numbering under ids that
+    the new numbering hands out again (reserved up-cast ids are recognised by their *absence* from the map)."""
     ci, prog = mw(ctx)
-    for attr, init_ok in (("wrapper_id", lambda v: isinstance(v, ast.Constant) and v.value == 0),
-                          ("wrapper_map", lambda v: isinstance(v, ast.Dict) and not v.keys)):
-        writes = []
-        for c in prog.mro(ci):
-            for mname, fn in c.methods.items():
-                for n in walk_no_nested(fn):
-                    if isinstance(n, ast.Attribute) and n.attr == attr and isinstance(n.value, ast.Name) and n.value.id == "self":
-                        p = parent(n)
-                        w = None
-                        if isinstance(n.ctx, (ast.Store, ast.Del)):
-                            w = "assign"
-                        elif isinstance(p, ast.Subscript) and p.value is n and isinstance(p.ctx, (ast.Store, ast.Del)):
-                            w = "item store"
-                        elif isinstance(p, ast.Attribute) and p.attr in ("update", "pop", "clear", "setdefault", "popitem") \
-                                and isinstance(parent(p), ast.Call):
-                            w = "." + p.attr
-                        if w:
-                            writes.append((c.qual, mname, w, n))
-        where_ok = all(m in ("__init__", ALLOC) for _, m, _, _ in writes)
-        rep.add(rid, f"self.{attr}:written only by __init__ and {ALLOC}", where_ok and bool(writes),
-                f"writers: {sorted({f'{q}.{m} ({w})' for q, m, w, _ in writes})}: any other writer breaks the "
-                f"one-id-per-call-site numbering", f"{ci.mod.rel}:{writes[0][3].lineno if writes else 0}")
-        inits = [parent(n).value for _, m, w, n in writes if m == "__init__" and w == "assign" and isinstance(parent(n), (ast.Assign, ast.AnnAssign))]
-        rep.add(rid, f"self.{attr}:starts empty", len(inits) == 1 and init_ok(inits[0]),
-                f"initial value {unparse(inits[0]) if inits else None}", f"{ci.mod.rel}:0")
+    INIT = {"wrapper_id": lambda v: isinstance(v, ast.Constant) and v.value == 0,
+            "wrapper_map": lambda v: isinstance(v, ast.Dict) and not v.keys}
+    writes = {a: [] for a in INIT}
+    for c in prog.mro(ci):
+        for mname, fn in c.methods.items():
+            for n in walk_no_nested(fn):
+                if isinstance(n, ast.Attribute) and n.attr in INIT and isinstance(n.value, ast.Name) and n.value.id == "self":
+                    p = parent(n)
+                    w = None
+                    if isinstance(n.ctx, (ast.Store, ast.Del)):
+                        w = "assign"
+                    elif isinstance(p, ast.Subscript) and p.value is n and isinstance(p.ctx, (ast.Store, ast.Del)):
+                        w = "item store"
+                    elif isinstance(p, ast.Attribute) and p.attr in ("update", "pop", "clear", "setdefault", "popitem") \
+                            and isinstance(parent(p), ast.Call):
+                        w = "." + p.attr
+                    if w:
+                        writes[n.attr].append((c.qual, mname, w, n, fn))
+
+    def reset_stmt(n):
+        st = parent(n)
+        return st if isinstance(st, (ast.Assign, ast.AnnAssign)) and st.value is not None and INIT[n.attr](st.value) else None
+
+    resets = {}   # method -> {attr: stmt}
+    for attr in INIT:
+        bad = []
+        for q, m, w, n, fn in writes[attr]:
+            if m == ALLOC:
+                continue
+            st = reset_stmt(n) if w == "assign" else None
+            if st is None or st not in fn.body:
+                bad.append(f"{q}.{m} ({w}{'' if st is None else ', conditional'})")
+            else:
+                resets.setdefault(m, {})[attr] = st
+        rep.add(rid, f"self.{attr}:written only by {ALLOC} and by unconditional resets to the empty value", not bad and bool(writes[attr]),
+                f"other writers: {sorted(bad)}: any other writer breaks the one-id-per-call-site numbering",
+                f"{ci.mod.rel}:{writes[attr][0][3].lineno if writes[attr] else 0}")
+    def effective(m, depth=3):
+        out = set(resets.get(m, {}))
+        fn = prog.find_method(ci, m)
+        if fn is None or depth <= 0:
+            return out
+        for st in fn[1].body:
+            if isinstance(st, ast.Expr) and isinstance(st.value, ast.Call) and isinstance(st.value.func, ast.Attribute) \
+                    and unparse(st.value.func.value) == "self" and st.value.func.attr != m:
+                out |= effective(st.value.func.attr, depth - 1)
+        return out
+
+    for m in sorted(resets):
+        eff = effective(m)
+        rep.add(rid, f"reset:{m}:counter and dispatch map are reset together", eff == set(INIT),
+                f"{m} resets only {sorted(eff)}: after it the counter hands out ids whose map entries still describe the "
+                f"previous numbering (a reserved up-cast id, recognised by having *no* entry, finds a stale routine instead)",
+                f"{ci.mod.rel}:{list(resets[m].values())[0].lineno}")
+    init = prog.method("MatlabWrapper", "__init__")
+    rep.add(rid, "self.wrapper_id/self.wrapper_map:start empty (constructor performs the joint reset)", effective("__init__") == set(INIT),
+            f"joint resets found in {sorted(resets)}", f"{ci.mod.rel}:{init.lineno}")
 
 
 def rule_allocator(ctx, rep: Report, rid="I2"):
@@ -698,3 +734,39 @@ def rule_roles(ctx, rep: Report, rid="I6"):
     rep.add(rid, "property role:getter and setter told apart by the exact prefix <Class>_get_/<Class>_set_ of the routine name",
             kinds == ["_get_", "_set_"] and all("+" in unparse(i.test.args[0]) for i in props),
             f"prefix tests found for {kinds}", f"{ci.mod.rel}:{gc.lineno}")
+    # ... and the prefix tested here is spelt from the same tuple slots as the name given at the call site
+    wcp = prog.method("MatlabWrapper", "wrap_class_properties")
+    built: Dict[str, Set[str]] = {}
+    for c in ast.walk(wcp):
+        if isinstance(c, ast.Call) and unparse(c.func) == "self._update_wrapper_id" and c.args and isinstance(c.args[0], ast.Tuple):
+            tup = c.args[0]
+            fname = next((k.value for k in c.keywords if k.arg == "function_name"), c.args[2] if len(c.args) > 2 else None)
+            if fname is None or len(tup.elts) < 2:
+                continue
+            from .rules_alias import reaching_defs
+            e = fname
+            if isinstance(e, ast.Name):
+                defs, _k = reaching_defs(wcp, e.id, c)
+                vals = [d.value for d in defs if isinstance(d, ast.Assign)]
+                if len(vals) != 1:
+                    raise AnalysisError(f"wrap_class_properties: routine name {e.id} has {len(vals)} reaching definitions")
+                e = vals[0]
+            txt = unparse(e).replace(unparse(tup.elts[1]), "<S1>").replace(unparse(tup.elts[0]), "<S0>")
+            for tag in ("_get_", "_set_"):
+                if repr(tag) in txt:
+                    built.setdefault(tag, set()).add(txt.split(repr(tag))[0] + repr(tag))
+    mapdef = next((st for st in walk_no_nested(gc) if isinstance(st, ast.Assign) and isinstance(st.targets[0], ast.Name)
+                   and "wrapper_map" in unparse(st.value)), None)
+    mapvar = mapdef.targets[0].id if mapdef is not None else None
+    mapexpr = unparse(mapdef.value) if mapdef is not None else None
+    for i in props:
+        tag = next(x.value for x in ast.walk(i.test) if isinstance(x, ast.Constant) and x.value in ("_get_", "_set_"))
+        pref = unparse(inline_locals(gc, i.test.args[0]))
+        for base in ([mapvar, mapexpr] if mapvar else []):
+            pref = pref.replace(f"{base}[1]", "<S1>").replace(f"{base}[0]", "<S0>")
+        want = built.get(tag, set())
+        rep.add(rid, f"property role:{tag}:the tested prefix is spelt like the routine name registered by wrap_class_properties",
+                want == {pref}, f"generate_collector_function tests the prefix `{pref}`; wrap_class_properties names the routine "
+                f"`{sorted(want)}...` (S0/S1 = slots 0/1 of the registered tuple): when the two spellings differ for some class "
+                f"(e.g. a typedef instantiated in another namespace than its template) neither / the wrong accessor body is emitted",
+                f"{ci.mod.rel}:{i.lineno}")
